@@ -46,3 +46,4 @@ def run(ctx):
     R3.r04_10_key_test_table(ctx, 'R01.11')
     S.r02_2_attrset(ctx, 'R01.12')
     R3.r01_13_extras_partition(ctx, 'R01.13')
+    R3.r03_15_tag_class_direction(ctx, 'R01.14')
